@@ -1,21 +1,56 @@
 package main
 
 import (
+	"encoding/json"
 	"fmt"
 	"os"
 
 	"verif/sim/core"
-	"verif/sim/props/c07"
+	"verif/sim/env"
+	"verif/sim/ops"
 )
 
+// scratch tool: runs the write operation of a C13/C05 replay file and prints hooks and statements in order
 func main() {
-	p := c07.Prop{}
 	rp, err := core.ReadReplay(os.Args[1])
 	if err != nil {
 		panic(err)
 	}
-	c, _ := p.Decode(rp.Case)
-	c07.Debug = true
-	o := p.Run(c, nil)
-	fmt.Println(o.Trouble, o.Violation, o.Counters)
+	var c struct {
+		W  *ops.WOp `json:"write"`
+		Op *ops.WOp `json:"op"`
+	}
+	json.Unmarshal(rp.Case, &c)
+	w := c.W
+	if w == nil {
+		w = c.Op
+	}
+	sr, err := ops.RunSingle(env.Options{}, nil, nil, func(e *env.Env) ops.Result { return w.Exec(e.DB) })
+	if err != nil {
+		panic(err)
+	}
+	type item struct {
+		seq int64
+		s   string
+	}
+	var items []item
+	for _, h := range sr.Hooks {
+		items = append(items, item{h.Seq, fmt.Sprintf("HOOK %s.%s %s intx=%v", h.Model, h.Hook, h.Rec, h.InTx)})
+	}
+	for _, ev := range sr.Events {
+		if ev.Kind == "exec" || ev.Kind == "query" || ev.Kind == "begin" || ev.Kind == "commit" {
+			items = append(items, item{ev.Seq, fmt.Sprintf("SQL  %s %s %v", ev.Kind, ev.SQL, ev.Args)})
+		}
+	}
+	for i := range items {
+		for j := i + 1; j < len(items); j++ {
+			if items[j].seq < items[i].seq {
+				items[i], items[j] = items[j], items[i]
+			}
+		}
+	}
+	for _, it := range items {
+		fmt.Println(it.seq, it.s)
+	}
+	fmt.Println("err:", sr.Res.Err)
 }
